@@ -83,6 +83,28 @@ Theorem C07_draws_scalar_len : forall p c r d,
 Proof. exact draws_scalar_len. Qed.
 Print Assumptions C07_draws_scalar_len.
 
+(* The draw table read as offsets (the sites the offset tie of the correspondence uses). *)
+Theorem C07_lindell22_nonce_site : forall q c t,
+  nth_error (first_msg q (draws PLindell22 c 1) t) 0 =
+  Some (TExp (sample_scalar q (slice 0 (N.to_nat (c_w c)) t))).
+Proof. exact lindell22_nonce_site. Qed.
+Print Assumptions C07_lindell22_nonce_site.
+
+Theorem C07_dkls23_round1_sites : forall q c t,
+  let W := N.to_nat (c_w c) in
+  firstn 3 (party_values q (draws PDkls23Bbot c 1) t) =
+  [VScalar (sample_scalar q (slice 0 W t)); VRaw (slice W (N.to_nat 32) t);
+   VScalar (sample_scalar q (slice (W + N.to_nat 32) W t))].
+Proof. exact dkls23_round1_sites. Qed.
+Print Assumptions C07_dkls23_round1_sites.
+
+Theorem C07_session_round1_sites : forall q c t,
+  first_msg q (draws PSession c 1) t =
+  [TBytes (slice 0 (N.to_nat 32) t); TBytes (slice (N.to_nat 32) (N.to_nat 32) t);
+   TBytes (slice (N.to_nat 32 + N.to_nat 32) (N.to_nat 32) t)].
+Proof. exact session_round1_sites. Qed.
+Print Assumptions C07_session_round1_sites.
+
 (* Non-vacuity: a concrete three-party instance in which relabelling one tape leaves the
    others' messages unchanged and changes its own. *)
 Example C07_nonvacuous :
